@@ -311,6 +311,7 @@ def run_rational(rng, obs):
 def run_solve(rng, obs):
     from mystic.symbolic import solve
     n = rng.randint(2, 5); m = rng.randint(1, n - 1)
+    if rng.random() < 0.3: m = n          # square systems: the solved form is a single point, whose coordinates are often exactly 0
     variables, names = names_for(rng, n)
     # consistent by construction: b = A x*
     A = [[float(rng.choice([1, 2, 3, -1, -2, 0, 4])) if rng.random() < 0.8 else rng.choice([0.5, -1.5]) for _ in range(n)] for _ in range(m)]
